@@ -62,6 +62,11 @@ CLAIMED = {
         "Theorems (arbitrary float algebra, axiom-free unless stated): the closures the lambda visitor builds compute the class's mathematical function (Reals) and agree with the eval_double rules; after a successful init, call returns exactly what direct evaluation computes at the inputs; CSE on/off give equal results given a faithful cse(); re-initialising from ANY state (any history incl. failed inits) behaves like a fresh object. Tied by running histories of 1-4 inits (CSE on/off, failing inits, symbols named like CSE replacements) and calls on the library and the model, bit-exact incl. exception/crash outcomes.",
         "Trusted: as C12; cse() faithfulness is C37's matter (explicit hypothesis); Add/Mul dictionary fold vs get_args fold not proved equal.",
         "7 (C13)"),
+    "C15": (
+        "Rocq proof over an executable model of the C89/C99 code printers as trees of C expressions (parentheses as nodes, function-name table REGENERATED from codegen.cpp) and a reference reader of C expression syntax + byte-exact correspondence of the emitted text + gcc oracle",
+        "Theorems: printing a well-parenthesised C tree and re-reading it with C's precedence/associativity returns the same tree (all trees); the printer's output for every expression satisfying the boolean guard `cguard` reads back as the intended operator tree (refuted outside the guard: Contains operand = known finding); no division is carried out in integer arithmetic under `nguard` (refuted: 3/Piecewise of integers = known finding); the C tree printed for a guarded Add / Mul evaluates to the sum / product in any field (partial: not assembled into one whole-tree value theorem). What the C compiler and libm do is outside any theorem: gcc compiles the emitted double and float texts of every explored expression and the values at sample points are compared with eval_double / the lambda visitor (testing, labelled).",
+        "Trusted: Coq kernel; translator for the name table; extraction; gcc 12 for the oracle; known findings (listed): int division with all-integer Piecewise, lost grouping for UnevaluatedExpr / reciprocal trig functions / Contains, non-finite literals.",
+        "7 (C15)"),
     "C16": (
         "Rocq proof over an executable model of StrPrinter (term order PrinterBasicCmp, precedence, parenthesisation, numerator/denominator split; flags REGENERATED from strprinter.cpp) and the reference parser of C17 + byte-exact correspondence of str(e) and of parse(str(e))",
         "Theorems: every permutation of a sum's dictionary prints the same string (for all well-formed sums, using the C02 order theorems) - dictionary order does not leak into the output; parse_ref(print e) gives back e's syntax on the fragment Symbol / non-negative Integer / Pow (partial: Add, Mul, functions, relationals by correspondence only); refutation: 0.0 and -0.0 are eq but print differently (known finding). Tied by comparing the model's string byte for byte with str(e) (incl. %.15g doubles) and the model's parse of it with parse(str(e)); oracle eq(parse(str(e)), e) on the library.",
